@@ -2,7 +2,311 @@ import FtDriver.Json
 open Lean (Json)
 namespace FtDriver
 open Ft
+namespace C16
+open Ft.C16
 
-def handleC16 (_j : Json) : Except String Verdict := throw "C16: not implemented"
+def keyStr (k : Key) : String := k.1 ++ "|" ++ k.2
+
+def lineJson : Line → Json
+  | .hdr ns => jList (ns.map Json.str)
+  | .dat vs => jInts vs
+
+def parseLine (j : Json) : Except String Line := do
+  let arr ← asList j
+  match arr with
+  | [] => throw "empty trace line"
+  | x :: _ =>
+    match x.getStr? with
+    | .ok _ => pure (.hdr (← arr.mapM (·.getStr?)))
+    | .error _ => pure (.dat (← arr.mapM (·.getInt?)))
+
+def parseLines (j : Json) : Except String (List Line) := do (← asList j).mapM parseLine
+
+def optField (j : Json) (k : String) : Option Json :=
+  match j.getObjVal? k with
+  | .ok Json.null => none
+  | .ok v => some v
+  | .error _ => none
+
+def parseOptInt (j : Json) (k : String) : Except String (Option Int) :=
+  match optField j k with
+  | none => pure none
+  | some v => do pure (some (← v.getInt?))
+
+def parseAny (j : Json) : Except String AnyTree := do
+  let d ← fNat j "d"
+  let t ← fTree j "tree" d
+  pure ⟨d, t⟩
+
+def parseSrc (j : Json) : Except String SrcKind := do
+  let kind ← fStr j "kind"
+  match kind with
+  | "fiber" => pure (.fiber (← fNat j "x"))
+  | "and" => pure (.and (← fNat j "x") (← fNat j "y"))
+  | "lf" => pure (.lf (← fNat j "x") (← fNat j "y"))
+  | "proj" =>
+    let own := match (j.getObjVal? "own") with | .ok (Json.bool b) => b | _ => false
+    pure (.proj (← fNat j "x") (← fStr j "srcRank") (← fInt j "off") (← parseOptInt j "lo") (← parseOptInt j "hi") own)
+  | s => throw s!"C16: unknown source kind {s}"
+
+def parseLevel (j : Json) : Except String Level := do
+  let pop := match (j.getObjVal? "pop") with | .ok (Json.bool b) => b | _ => false
+  pure { rank := (← fStr j "rank"), src := (← parseSrc (← field j "src")), pop := pop,
+         insertPos := fIntD j "insertPos" 0 }
+
+def parseKey (j : Json) : Except String Key := do
+  match (← asList j) with
+  | [r, t] => pure ((← r.getStr?), (← t.getStr?))
+  | _ => throw "C16: key"
+
+def parseEv (j : Json) : Except String Ev := do
+  let arr ← asList j
+  match arr with
+  | [] => throw "C16: empty event"
+  | tag :: args =>
+    let tag ← tag.getStr?
+    match tag, args with
+    | "trace", [r, ty, c] => pure (.trace (← r.getStr?) (← ty.getStr?) (← c.getBool?))
+    | "match", [a, b] => pure (.matchR (← a.getStr?) (← b.getStr?))
+    | "reg", [r] => pure (.reg (← r.getStr?))
+    | "use", [r, c, pos, ty, ovr] =>
+      let o ← (match ovr with
+        | Json.null => pure none
+        | v => do pure (some ((← asInts v).map Int.toNat)))
+      pure (.use (← r.getStr?) (← c.getInt?) (← pos.getInt?) (← ty.getStr?) o)
+    | "inc", [r] => pure (.inc (← r.getStr?))
+    | "end", [r] => pure (.endI (← r.getStr?))
+    | "consume", [r, ty] => pure (.consume (← r.getStr?) (← ty.getStr?))
+    | "endCollect", [] => pure .endCollect
+    | t, _ => throw s!"C16: bad event {t}"
+
+/-- an observed set of trace files: key string ↦ lines (`none` = no such file) -/
+def parseFiles (j : Json) (keys : List Key) : Except String (List (Key × Option (List Line))) :=
+  keys.mapM (fun k => do
+    match optField j (keyStr k) with
+    | none => pure (k, none)
+    | some v => pure (k, some (← parseLines v)))
+
+def filesJson (fs : List (Key × Option (List Line))) : Json :=
+  Json.mkObj (fs.map (fun e => (keyStr e.1, match e.2 with
+    | none => Json.null
+    | some ls => jList (ls.map lineJson))))
+
+def dedup (l : List String) : List String := l.eraseDups
+
+/-! statistics of a nest, for the branch tags -/
+structure Stats where
+  uses : Nat := 0
+  saved : Nat := 0
+  incs : Nat := 0
+  bumps : Nat := 0
+  subs : Nat := 0
+
+def Stats.add (a b : Stats) : Stats :=
+  ⟨a.uses + b.uses, a.saved + b.saved, a.incs + b.incs, a.bumps + b.bumps, a.subs + b.subs⟩
+
+def itemsStats {σ : Type} (f : σ → Stats) : List (Item σ) → Stats
+  | [] => {}
+  | .use .. :: r => ({ uses := 1 } : Stats).add (itemsStats f r)
+  | .useSaved .. :: r => ({ saved := 1 } : Stats).add (itemsStats f r)
+  | .inc :: r => ({ incs := 1 } : Stats).add (itemsStats f r)
+  | .save _ :: r => itemsStats f r
+  | .bump _ :: r => ({ bumps := 1 } : Stats).add (itemsStats f r)
+  | .sub x :: r => (({ subs := 1 } : Stats).add (f x)).add (itemsStats f r)
+
+def nestStats : (d : Nat) → Nest d → Stats
+  | 0, _ => {}
+  | d + 1, (_, items) => itemsStats (nestStats d) items
+
+def hasEmptyElems (dflt : Int) : (d : Nat) → Tree Int Int d → Bool
+  | 0, _ => false
+  | d + 1, f => (show List (Int × Tree Int Int d) from f).any
+      (fun e => isEmpty dflt d e.2 || hasEmptyElems dflt d e.2)
+
+def srcTag : SrcKind → String
+  | .fiber _ => "fiber" | .and .. => "and" | .lf .. => "lf" | .proj .. => "proj"
+
+def tyFamily (ty : String) : String :=
+  if ty.startsWith "intersect_" then "intersect"
+  else if ty.startsWith "project_" then "project"
+  else if ty = "populate_1" then "populate-src"
+  else if ty.startsWith "populate_" then "populate-dst"
+  else ty
+
+def handleKernel (j : Json) : Except String Verdict := do
+  let dflt := fIntD j "dflt" 0
+  let levels ← (← fArr j "levels").mapM parseLevel
+  let ops ← (← fArr j "ops").mapM parseAny
+  let z ← (match optField j "z" with
+    | none => pure (⟨0, (0 : Int)⟩ : AnyTree)
+    | some v => parseAny v)
+  let traced ← (← fArr j "traced").mapM parseKey
+  let ms ← (← fArr j "matches").mapM parseKey
+  let thresholds := (← asInts (← field j "thresholds")).map Int.toNat
+  let impl ← field j "impl"
+  let implErr := match optField impl "err" with | some (Json.str s) => some s | _ => none
+  -- preconditions of the model: sorted operands, fibers where loops need them
+  let wf := ops.all (fun t => wfB t.1 t.2) && wfB z.1 z.2
+  if !wf then return { agree := true, spec := true, tags := ["OUT_OF_MODEL"] }
+  let tr : Key → Bool := fun k => traced.contains k
+  let D := levels.length
+  let env : Env := { ops := ops, z := z }
+  let res := interp tr dflt D levels env
+  let nest := res.2
+  let calls := flatten D nest []
+  let st0 := fun (n : Nat) (cons : Bool) => run (init n) (configEvs traced cons ms)
+  -- model files per threshold, consumable run
+  let modelFiles := thresholds.map (fun n =>
+    let st := run (st0 n false) (calls ++ [.endCollect])
+    (n, st.fault, traced.map (fun k => (k, st.disk k))))
+  let stM := run (st0 1000 true) (calls ++ traced.map (fun k => Ev.consume k.1 k.2) ++ [.endCollect])
+  let modelMem := traced.map (fun k => (k, some (stM.consumed k)))
+  let modelFault := modelFiles.any (fun e => e.2.1) || stM.fault
+  -- implementation observations
+  let implFilesJ ← field impl "files"
+  let implFiles ← thresholds.mapM (fun n => do
+    match optField implFilesJ (toString n) with
+    | some v => pure (n, ← parseFiles v traced)
+    | none => pure (n, traced.map (fun k => (k, none))))
+  let implMem ← (match optField impl "mem" with
+    | some v => parseFiles v traced
+    | none => pure (traced.map (fun k => (k, none))))
+  -- tags
+  let stt := nestStats D nest
+  let anyFlush := implFiles.any (fun e => e.2.any (fun f => match f.2 with
+    | some ls => decide (ls.length ≥ e.1) | none => false))
+  let stagingRows := fun (ty : String) => (modelFiles.head?.map (fun e => e.2.2.any (fun f =>
+    f.1.2 == ty && (match keyLevel levels f.1.1, f.2 with
+      | some i, some ls => (match levels[i]? with
+        | some lv => lv.pop && ls.any (fun l => match l with
+            | .dat v => decide (lv.insertPos ≤ v.getLast?.getD 0) | .hdr _ => false)
+        | none => false)
+      | _, _ => false)))).getD false
+  let tags := dedup (
+    (if stagingRows "populate_write_0" then ["inserting:staging-write"] else []) ++
+    (if stagingRows "populate_read_0" then ["inserting:move-from-staging"] else []) ++
+    levels.map (fun lv => (if lv.pop then "pop+" else "") ++ srcTag lv.src) ++
+    [s!"depth{D}"] ++
+    (if stt.saved > stt.bumps then ["project-use"] else []) ++
+    (if stt.bumps > 0 then ["dest-write"] else []) ++
+    (if stt.incs > stt.subs + stt.bumps then ["extra-inc"] else []) ++
+    (if anyFlush then ["flushed"] else []) ++
+    (if ops.any (fun t => hasEmptyElems dflt t.1 t.2) then ["explicit-empty"] else []) ++
+    (if modelFault then ["model-fault"] else []))
+  let modelOut := Json.mkObj [
+    ("files", Json.mkObj (modelFiles.map (fun e => (toString e.1, filesJson e.2.2)))),
+    ("mem", filesJson modelMem), ("fault", Json.bool modelFault)]
+  -- crashes
+  match implErr with
+  | some e =>
+    return { agree := modelFault, spec := false, model := modelOut, tags := tags ++ ["impl-error"],
+             why := s!"crash:{e}" }
+  | none =>
+  if modelFault then
+    return { agree := false, spec := true, model := modelOut, tags, why := "model faults, implementation does not" }
+  -- agreement: every file at every threshold, and the consumable traces
+  let fileDiffs := (implFiles.zip modelFiles).flatMap (fun e =>
+    (e.1.2.zip e.2.2.2).filterMap (fun f =>
+      if f.1.2 = f.2.2 then none else some s!"file@{e.1.1}:{keyStr f.1.1}"))
+  let memDiffs := (implMem.zip modelMem).filterMap (fun f =>
+    if f.1.2 = f.2.2 then none else some s!"mem:{keyStr f.1.1}")
+  -- run-time cross-check of the two readings of the nest (machine vs explicit counters)
+  let simDiffs := (modelFiles.head?.map (fun e => e.2.2.filterMap (fun f =>
+    let rows := (rowsOf tr D nest f.1).map Row.line
+    match f.2 with
+    | some (_ :: ls) => if ls = rows then none else some s!"sim:{keyStr f.1}"
+    | some [] => if rows = [] then none else some s!"sim:{keyStr f.1}"
+    | none => some s!"sim-nofile:{keyStr f.1}"))).getD []
+  -- run-time check of the hypothesis of `trace_stamps_sorted` on this nest, for every traced key
+  let wnDiffs := traced.filterMap (fun k =>
+    match keyLevel levels k.1 with
+    | some i => if wn k (k.2 == "iter") i D nest then none else some s!"wn:{keyStr k}"
+    | none => if noKey k D nest then none else some s!"wn-unknown-rank:{keyStr k}")
+  let agreeWhy := fileDiffs ++ memDiffs ++ simDiffs ++ wnDiffs
+  -- specification on the implementation's files
+  let first := (implFiles.head?.map (·.2)).getD []
+  let specFails := first.flatMap (fun f =>
+    let k := f.1
+    match f.2 with
+    | none => [s!"missing-file:{tyFamily k.2}"]
+    | some ls =>
+      match keyLevel levels k.1 with
+      | none => if ls = [] then [] else ["rows-for-unknown-rank"]
+      | some i =>
+        (if fileShapeOK levels i k.2 ls then [] else [s!"shape:{tyFamily k.2}"]) ++
+        (if fileAddrOK dflt true levels ops i k.2 ls then [] else
+          (if fileAddrOK dflt false levels ops i k.2 ls then [s!"addr-storage:{tyFamily k.2}"]
+           else [s!"addr:{tyFamily k.2}"]))) ++
+    -- flush independence: all thresholds give the same files
+    (implFiles.tail.flatMap (fun e => (e.2.zip first).filterMap (fun f =>
+      if f.1.2 = f.2.2 then none else some s!"flush:{tyFamily f.1.1.2}"))) ++
+    -- consumable traces deliver the same rows
+    ((implMem.zip first).filterMap (fun f =>
+      if f.1.2 = f.2.2 then none else some s!"mem-vs-file:{tyFamily f.1.1.2}"))
+  let specFails := dedup specFails
+  pure { agree := agreeWhy.isEmpty, spec := specFails.isEmpty, model := modelOut, tags,
+         why := ";".intercalate (specFails ++ agreeWhy.take 4) }
+
+/-- what the file of `k` holds plus what is still buffered for it (`none`: no file, no file trace) -/
+def modelContent (st : MState) (k : Key) : Option (List Line) :=
+  if (st.disk k).isSome || ((st.slots k).bind (·.file)).isSome then some (content st k) else none
+
+def handleApi (j : Json) : Except String Verdict := do
+  let evs ← (← fArr j "evs").mapM parseEv
+  let thresholds := (← asInts (← field j "thresholds")).map Int.toNat
+  let keysJ ← fArr j "keys"
+  let keys ← keysJ.mapM parseKey
+  let impl ← field j "impl"
+  let runs ← field impl "runs"
+  let results ← thresholds.mapM (fun n => do
+    let r ← field runs (toString n)
+    let files ← parseFiles (← field r "files") keys
+    let cons ← parseFiles (← field r "consumed") keys
+    let err := match optField r "err" with | some (Json.str s) => some s | _ => none
+    let st := run (init n) evs
+    pure (n, st, files, cons, err))
+  let diffs := results.flatMap (fun (n, st, files, cons, err) =>
+    if st.fault || err.isSome then
+      (if st.fault = err.isSome then [] else [s!"fault@{n}:model={st.fault}"])
+    else
+      files.filterMap (fun f => if modelContent st f.1 = f.2 then none else some s!"file@{n}:{keyStr f.1}") ++
+      cons.filterMap (fun f => if some (st.consumed f.1) = f.2 then none else some s!"consumed@{n}:{keyStr f.1}"))
+  -- spec on the implementation: no restart ⇒ same files at every threshold; a trace kept both ways
+  -- delivers the same lines in memory as in the file
+  let anyFault := results.any (fun (_, st, _, _, err) => st.fault || err.isSome)
+  let restarted := results.any (fun (_, st, _, _, _) => st.restarted)
+  let firstFiles := (results.head?.map (fun (_, _, files, _, _) => files)).getD []
+  let ended := decide (evs.getLast? = some Ev.endCollect)
+  let flushFails := if anyFault || restarted || !ended then [] else
+    results.tail.flatMap (fun (n, _, files, _, _) => (files.zip firstFiles).filterMap (fun f =>
+      if f.1.2 = f.2.2 then none else some s!"flush@{n}:{keyStr f.1.1}"))
+  let both := keys.filter (fun k => evs.contains (.trace k.1 k.2 true) && evs.contains (.trace k.1 k.2 false))
+  let memFails := if anyFault || restarted then [] else
+    results.flatMap (fun (n, _, files, cons, _) => both.filterMap (fun k =>
+      let f := ((files.find? (·.1 = k)).bind (·.2)).getD []
+      let m := ((cons.find? (·.1 = k)).bind (·.2)).getD []
+      -- only when everything was consumed (endCollect would assert otherwise) and the file was written
+      if evs.getLast? = some .endCollect then (if f = m then none else some s!"mem-vs-file@{n}:{keyStr k}") else none))
+  let specFails := flushFails ++ memFails
+  let tags := dedup (
+    ["api"] ++ (if anyFault then ["fault"] else []) ++ (if restarted then ["restart"] else []) ++
+    (if both.isEmpty then [] else ["file+mem"]) ++
+    (if results.any (fun (n, _, files, _, _) => files.any (fun f => match f.2 with
+        | some ls => decide (ls.length > n) | none => false)) then ["flushed"] else []))
+  let modelOut := Json.mkObj (results.map (fun (n, st, _, _, _) =>
+    (toString n, Json.mkObj [("files", filesJson (keys.map (fun k => (k, modelContent st k)))),
+                             ("consumed", filesJson (keys.map (fun k => (k, some (st.consumed k))))),
+                             ("fault", Json.bool st.fault)])))
+  pure { agree := diffs.isEmpty, spec := specFails.isEmpty, model := modelOut, tags,
+         why := ";".intercalate ((specFails ++ diffs).take 6) }
+
+end C16
+
+def handleC16 (j : Json) : Except String Verdict := do
+  let op := fStrD j "op" "kernel"
+  match op with
+  | "kernel" => C16.handleKernel j
+  | "api" => C16.handleApi j
+  | _ => throw s!"C16: unknown op {op}"
 
 end FtDriver
